@@ -170,20 +170,11 @@ fn base_schedule_like(s: &Schedule) -> Schedule {
 }
 
 fn report(ctx: &mut CaseCtx, m: &Module, s: &Schedule, sig: Json, what: String) {
-    // one report per signature and case
+    // one report per signature and case; minimisation happens in the driver (Check::minimise)
     if ctx.violations.iter().any(|v| v.sig == sig) {
         return;
     }
-    // the un-minimised violation is announced first: if a shrink candidate kills the worker the
-    // driver still has it
-    ctx.pre_violation(&sig, &what, &json!({"module": module_json(m), "schedule": s.to_json(), "cards": count_cards(m)}));
-    ctx.progress("minimise");
-    let (mm, ms) = if ctx.violations.len() < 3 && std::env::var_os("CAOSIM_NO_SHRINK").is_none() {
-        minimise(m, s, &sig)
-    } else {
-        (m.clone(), s.clone())
-    };
-    ctx.violation(sig, what, json!({"module": module_json(&mm), "schedule": ms.to_json(), "cards": count_cards(&mm)}));
+    ctx.violation(sig, what, json!({"module": module_json(m), "schedule": s.to_json(), "cards": count_cards(m)}));
 }
 
 impl Check for C02 {
@@ -354,6 +345,12 @@ impl Check for C02 {
                 ctx.violation(sig, what, replay.clone());
             }
         }
+    }
+    fn minimise(&self, replay: &Json, sig: &Json) -> Json {
+        let Some(m) = replay.get("module").and_then(module_from_json) else { return replay.clone() };
+        let Some(s) = replay.get("schedule").and_then(Schedule::from_json) else { return replay.clone() };
+        let (mm, ms) = minimise(&m, &s, sig);
+        json!({"module": module_json(&mm), "schedule": ms.to_json(), "cards": count_cards(&mm)})
     }
     fn assumptions(&self) -> Vec<String> {
         vec![
